@@ -16,7 +16,8 @@ RULE = ("all grammars of depth <= 2 over an 8-leaf pool x all strings of length 
         "of them that are in the reference class; non-trivial = grammar with >= 3 nodes and non-empty input")
 TRUSTED = pcommon.TRUSTED_PARSE + [
     "the reading `peg` (coq/Model/Peg.v) is the formal statement of the property; `in_class` delimits what is proved "
-    "(Or, Combine, stop_on are compared with the reference by correspondence only; SkipTo only model-vs-implementation)",
+    "(Or and Combine over a content that yields scalar tokens only are in the proved class; Combine over Group / Each / Forward "
+    "and stop_on are compared with the reference by correspondence only; SkipTo only model-vs-implementation)",
     "Each ('&'): the model (Model/Core.v each_impl) takes the children's mayReturnEmpty flags and the `==` classes of the operands "
     "(ParserElement.__eq__ is `vars(self) == vars(other)`) from the dump (tools/harness/dump.py each_info); `in_class` contains the Each nodes none of "
     "whose required operands may return empty (for the others the implementation violates the reading: C01_each_once_refuted); Each with results "
